@@ -23,7 +23,8 @@ PRIMS = {
 PAD_OPS = {"byte_align": "bitarray", "bounded_block_end": "bitarray"}
 LENGTH_ARG = {"nbits": 1, "uint_lit": 1, "bitarray": 1, "bytes": 1}
 
-Op = namedtuple("Op", "op targets kind node fn nested")
+Op = namedtuple("Op", "op targets kind node fn nested via entered")
+Op.__new__.__defaults__ = ((), None)
 
 
 class SerdesFunc(object):
@@ -212,15 +213,15 @@ class SerdesModel(object):
         functions without their own @context_type (inlined at each caller)."""
         out = OrderedDict()
 
-        def gather(name, seen, param_env):
+        def gather(name, seen, param_env, via=()):
             res = []
             for op in self.ops(name, param_env):
                 if op.op == "call":
                     callee = list(op.targets)[0]
                     if self.funcs[callee].ctype is None and callee not in seen:
-                        res.extend(gather(callee, seen | {callee}, op.nested or {}))
+                        res.extend(gather(callee, seen | {callee}, op.nested or {}, via + (op.node,)))
                 else:
-                    res.append(op)
+                    res.append(op._replace(via=via))
             return res
 
         def with_subcontext_type(op):
@@ -241,15 +242,15 @@ class SerdesModel(object):
         for name, sf in self.funcs.items():
             if not sf.ctype:
                 continue
-            stack = [sf.ctype]
+            stack = [(sf.ctype, None)]
             for op in gather(name, {name}, None):
                 if op.op == "subcontext_leave":
                     if len(stack) > 1:
                         stack.pop()
                     continue
                 inner = with_subcontext_type(op)
-                cur = inner if inner else stack[-1]
-                out.setdefault(cur, []).append(op)
+                cur, entered = (inner, None) if inner else stack[-1]
+                out.setdefault(cur, []).append(op._replace(entered=entered))
                 if op.op == "subcontext_enter":
-                    stack.append(op.nested or "?")
+                    stack.append((op.nested or "?", op.node))
         return out
